@@ -1751,8 +1751,17 @@ class EntityTemplate(Block):
             return obj
 
         for ctx in self.all_contexts():
-            current_ctx = ctx
-            ctx.visit_objects(check_usage)
+            if isinstance(ctx, Sequential) and ctx._always_expr is not None:
+                # the always block of a sequential context is emitted as
+                # separate concurrent statements, it is a driver of its own
+                current_ctx = ctx._always_expr
+                ctx._always_expr.visit_objects(check_usage)
+
+                current_ctx = ctx
+                Context.visit_objects(ctx, check_usage)
+            else:
+                current_ctx = ctx
+                ctx.visit_objects(check_usage)
 
         for block in self.all_blocks():
             if isinstance(block, Entity):
